@@ -17,7 +17,10 @@ import (
 )
 
 type verifRollWorld struct {
-	nested     bool // revisioned value lives at spec.template.v, revision history = [spec.template]
+	// finalizeAnswers (by spec value x) enables a finalize hook that returns the
+	// same children as the sync hook and finalized = finalizeAnswers[x]
+	finalizeAnswers map[string]bool
+	nested          bool // revisioned value lives at spec.template.v, revision history = [spec.template]
 	replicas   int  // 0 = all names
 	gensel     bool
 	w          *env.World
@@ -135,12 +138,25 @@ func (r *verifRollWorld) newPC() {
 	if r.nested {
 		fieldPaths = []string{"spec.template"}
 	}
-	r.pc = verifNewPC(r.w, verifPCConfig{
+	cfg := verifPCConfig{
 		FieldPaths: fieldPaths,
 		ParentRes:  r.parentRes, GenerateSelector: r.gensel,
 		Children: []verifChildRule{{Res: r.childRes, Strategy: verifStrategyOf(r.method)}},
 		Sync:     verifRollHook(r),
-	})
+	}
+	if r.finalizeAnswers != nil {
+		inner := verifRollHook(r)
+		cfg.FinalizeEnabled = true
+		cfg.Finalize = &verifHook{enabled: true, fn: func(req *v1.CompositeHookRequest) (*v1.CompositeHookResponse, error) {
+			resp, err := inner.fn(req)
+			if err == nil {
+				x, _, _ := unstructured.NestedString(req.Parent.Object, "spec", "x")
+				resp.Finalized = r.finalizeAnswers[x]
+			}
+			return resp, err
+		}}
+	}
+	r.pc = verifNewPC(r.w, cfg)
 }
 
 func (r *verifRollWorld) parent() *unstructured.Unstructured {
